@@ -29,6 +29,7 @@ KINDS = [
 ]
 INVALID_ELEMS = [1, {}, {'jsonrpc': '2.0', 'method': 1, 'id': 7}]
 ID_ALPHABET = [1, '1', 0, '', -1, '__absent__', None]
+DISPS = ['sync', 'async', 'async-seq', 'async-wrapped']
 
 
 def elem(kind, id):
@@ -46,7 +47,7 @@ def gen_cases(ctx):
     n_b = ctx.pick(3, 4)
     kinds2 = [(k, c) for k in KINDS for c in ('call', 'notif')]
     # singles: every kind x every id typing (incl. lenient / invalid ids)
-    for disp in ('sync', 'async'):
+    for disp in DISPS:
         for k in KINDS:
             for id in ID_ALPHABET + [2 ** 64, 'abc', 1.5, 1.0, True, False, [], {}]:
                 yield dict(part='single', disp=disp, mbs=None, doc=elem(k, id))
@@ -60,7 +61,7 @@ def gen_cases(ctx):
             doc = []
             for pos, (t, k, c) in enumerate(seq):
                 doc.append(elem(k, pos + 1 if c == 'call' else '__absent__') if t == 'e' else k)
-            for disp in ('sync', 'async'):
+            for disp in DISPS:
                 yield dict(part='a', disp=disp, mbs=None, doc=doc)
     # (b) all id assignments, one failing kind at each position (or none)
     fails = [None] + [k for k in KINDS if k[0] in ('unknown', 'nobind', 'perr', 'boom')]
@@ -69,7 +70,7 @@ def gen_cases(ctx):
             for fk in fails:
                 for pos in (range(n) if fk else [0]):
                     doc = [elem(fk if (fk and i == pos) else KINDS[0], ids[i]) for i in range(n)]
-                    for disp in ('sync', 'async'):
+                    for disp in DISPS:
                         yield dict(part='b', disp=disp, mbs=None, doc=doc)
     # (c) max_batch_size at and around the length
     small = [('e', KINDS[0], 'call'), ('e', KINDS[0], 'notif'), ('e', KINDS[3], 'call'), ('e', KINDS[6], 'notif'),
@@ -82,7 +83,7 @@ def gen_cases(ctx):
             for mbs in sorted({n - 1, n, n + 1, 1, 0}):
                 if mbs < 0:
                     continue
-                for disp in ('sync', 'async'):
+                for disp in DISPS:
                     yield dict(part='c', disp=disp, mbs=mbs, doc=doc)
 
 
@@ -148,13 +149,13 @@ def run(ctx):
     ctx.rule = ('E1 product enumeration: every single request over element kinds x id typings; every batch of '
                 'length <= %d over 17 element types with distinct ids; every id assignment over %r for batches of '
                 'length <= %d with one failing element at each position; max_batch_size around the length; both '
-                'dispatchers.  state = one (configuration, document) point, all distinct by construction; '
+                'dispatchers (sync, async, async with sequential batches, async with plain functions returning coroutines).  state = one (configuration, document) point, all distinct by construction; '
                 'non-trivial = accepted batch (compared element-wise with its elements sent alone)'
                 % (ctx.pick(3, 4), ID_ALPHABET, ctx.pick(3, 4)))
     ctx.assumptions += ['registered methods keep no state; JSON texts produced by json.dumps of the enumerated values',
                         'L1: explicit id null = notification or answered with id null; L2 fractional ids may be refused; '
                         'L3 max_batch_size=0 may mean no limit']
-    ctx.bounds.update(batch_len=ctx.pick(3, 4), id_alphabet=ID_ALPHABET, dispatchers=['sync', 'async'])
+    ctx.bounds.update(batch_len=ctx.pick(3, 4), id_alphabet=ID_ALPHABET, dispatchers=DISPS)
     ctx.run_cases('C02', lambda: gen_cases(ctx), run_case)
     oc = ctx.rec.outcomes
     ctx.guard('answered and unanswered seen', oc.get('nothing', 0) > 0 and any(k.startswith('batch') for k in oc))
